@@ -726,8 +726,6 @@ def explore(chk, tier, fixtures, rng):
     gen_stats["reference_runs"] = len(refs)
     gen_stats["timeout_us"] = TIMEOUT_US
     chk.part("schedules", **gen_stats)
-    for cid, rn in list(runs.items())[:0]:
-        pass
     for cid in [c for c in runs if runs[c]["forced"]][:3]:
         chk.sample({"forced": meta[cid]["cfg"]})
     return execs, meta
